@@ -478,11 +478,17 @@ def coincide(draw):
     if nwait > 1:
         acts += ["interrupt p2 -2 %s" % draw(PRIOS), "ccancel C0 p2", "stop p2 1", "setprio p2 %s" % draw(PRIOS),
                  "ftimers_clear p2"]
+    # competitors for the same thing arriving at d: blocking calls, so only as processes
+    rivals = {"acquire": ["preempt R0", "acquire R0"], "pacq": ["ppre P0 %d" % draw(st.integers(1, 2)), "pacq P0 1"],
+              "ptopup": ["ppre P0 %d" % draw(st.integers(2, 4)), "ppre P0 %d" % draw(st.integers(1, 4)), "pacq P0 1"],
+              "bget": ["bget B0 1"], "bput": ["bput B0 1"], "oget": ["oget Q0"], "oput": ["oput Q0 5"],
+              "kget": ["kget K0"], "kput": ["kput K0 5 1"]}.get(kind, [])
+    acts += rivals
     for _ in range(draw(st.integers(1, 4))):
         a = draw(st.sampled_from(acts))
         # mostly exactly at d; sometimes earlier, so that what happens at d meets the state it left behind
         at = d if (d == 0.0 or draw(st.integers(0, 3)) > 0) else d - 0.5
-        if draw(st.booleans()):
+        if a not in rivals and draw(st.booleans()):
             L.append("at %s %s %s" % (fhex(at), draw(PRIOS), a))
         else:
             L.append("proc p%d prio %s start 0 sprio 0" % (nproc, draw(PRIOS)))
@@ -490,6 +496,8 @@ def coincide(draw):
             L.append("op " + a)
             if draw(st.booleans()):
                 L.append("op " + draw(st.sampled_from(acts)))
+            if a in rivals:
+                L.append("op hold 0x1p0")
             nproc += 1
     return "\n".join(L) + "\n"
 
